@@ -343,7 +343,7 @@ pub fn run(args: &Args) {
     let full = args.num("full-u32", 0) == 1;
     let mut st = Stats::default();
     for (i, l) in lines.iter().enumerate() {
-        replay_line(&mut st, &prop, i, l, sweep_every, full);
+        guard_case(&mut st, &prop, "replay-lookup", l, |st| replay_line(st, &prop, i, l, sweep_every, full));
     }
     if shard.0 == 0 {
         let mut d = big_cases(&mut st);
@@ -365,7 +365,8 @@ pub fn replay_one(v: &Value) -> bool {
         }
         return !d.is_empty();
     }
-    replay_line(&mut st, v["property"].as_str().unwrap_or("C10"), 0, &v["line"], 1, false);
+    let prop = v["property"].as_str().unwrap_or("C10").to_string();
+    guard_case(&mut st, &prop, "replay-lookup", &v["line"], |st| replay_line(st, &prop, 0, &v["line"], 1, false));
     for x in &st.violations {
         println!("reproduced: {}", x.what);
         if let Some(d) = x.replay["diffs"].as_array() {
